@@ -4,6 +4,7 @@ import ScyllaVerif.Drive.C02
 import ScyllaVerif.Model.Pool
 import ScyllaVerif.Model.PoolReconnect
 import ScyllaVerif.Model.PoolKeyspace
+import ScyllaVerif.Model.C10MetaFetch
 /-! Line-protocol driver for C10.
 
 * `frames <hex>`            — `read_response_frame` in a loop over an in-memory reader holding exactly these bytes;
@@ -211,8 +212,48 @@ def runPoolk (cfg : String) (impl : String) : String :=
     let (_, s3) := phase p2 [.fill, .fill]
     s!"{s1} | {s2} | {s3} | probes=answered"
 
+/-- `metaf <table 0..8> <e|p> <fault>`: one request of a metadata fetch meets a scripted fault
+(`Model/C10MetaFetch.lean`). A fetch that fails gives the control connection up; the next one (on the re-established
+connection, nothing scripted any more) is answered in full. Printed: the partitioner of `ks.c10part` in the published
+metadata (`scylla_tables` names the CDC partitioner for it) and the control connections established after the fault. -/
+def runMetaf (t ph f : String) (impl : String) : String :=
+  if impl.startsWith "e2e-skip" then impl else
+  let hexNat (s : String) : Option Nat :=
+    if s.isEmpty then none else
+    s.toList.foldl (fun acc c => match acc with
+      | none => none
+      | some a =>
+        if '0' ≤ c ∧ c ≤ '9' then some (16 * a + (c.toNat - 48))
+        else if 'a' ≤ c ∧ c ≤ 'f' then some (16 * a + (c.toNat - 87)) else none) (some 0)
+  let fault : Option ScyllaVerif.C10MetaFetch.Fault :=
+    if f == "fin" || f == "rst" || f == "garbage" || f == "unsol" || f == "stall" || f == "cut" then some .connection
+    else if f == "badbody" then some .badBody
+    else if f == "baderr" then some .badErr
+    else if f.startsWith "db" then (hexNat (f.drop 2).toString).map .db
+    else none
+  match t.toNat?, fault with
+  | some ti, some fl =>
+    match ScyllaVerif.C10MetaFetch.Table.all[ti]? with
+    | none => "bad-case"
+    | some tb =>
+      if ph != "e" && ph != "p" then "bad-case"
+      else if ti < 2 && fl != .connection then "bad-case"
+      else
+        let out := ScyllaVerif.C10MetaFetch.faulted tb fl
+        let tolerated := ScyllaVerif.C10MetaFetch.faultTolerated tb fl
+        let show_ : Option (Option String) → String
+          | some (some _) => "cdc"
+          | some none => "none"
+          | none => "absent"
+        let part :=
+          if tolerated then show_ (ScyllaVerif.C10MetaFetch.publishedPartitioner (some "cdc") (out .scyllaTables))
+          else show_ (ScyllaVerif.C10MetaFetch.publishedPartitioner (some "cdc") (.ok ()))
+        s!"fired=1 part={part} recc={if tolerated then 0 else 1}"
+  | _, _ => "bad-case"
+
 def run (case impl : String) : String :=
   match words case with
+  | ["metaf", t, ph, f] => runMetaf t ph f impl
   | ["frames", hex] =>
     match parseHex hex with
     | some bytes => runFrames bytes
